@@ -11,6 +11,7 @@ from . import util
 FLAVOURS = {
     "plain": ["g++", "-std=c++11", "-O2", "-shared", "-fPIC"],
     "probe": ["g++", "-std=c++11", "-O2", "-shared", "-fPIC", "-DSTRENGTHS_VERIF"],
+    "vg": ["g++", "-std=c++11", "-O1", "-g", "-shared", "-fPIC"],          # for valgrind memcheck (line numbers, little inlining)
     "san": ["clang++", "-std=c++11", "-O1", "-g", "-fno-omit-frame-pointer",
             "-fsanitize=address,undefined", "-fno-sanitize-recover=undefined",
             "-shared-libasan", "-shared", "-fPIC"],
